@@ -497,3 +497,27 @@ def callee_param_name(body, c):
         rv_ = d_[2]
         l_ = rv_[2]["l"] if rv_[0] in ("Ref", "RawPtr") else (rv_[1][1]["l"] if rv_[0] in ("Use", "Cast") and isinstance(rv_[1], list) and rv_[1][0] in ("c", "m") else None)
     return ""
+
+
+
+def resolve_capture(fx, key, e, depth=0):
+    """an expression of a closure / coroutine body that is one of its captures, resolved to the expression the capture was filled with where the closure was built
+    (recursively through nested closures / async blocks): returns (body key, expression)"""
+    from mir import Body as _Body
+    x = D.strip_casts(e)
+    nm = x[1] if x[0] == "field" and D.strip_casts(x[2])[:2] == ("param", 1) else None
+    if nm is None and x[0] in ("ref", "mem", "deref") and len(x) > 1 and isinstance(x[1], tuple) and x[1] and isinstance(x[1][-1], str) and x[1][-1].startswith("<cap:"):
+        nm = x[1][-1][5:-1]
+    if nm is None or "::{closure#" not in key or depth > 6: return (key, e)
+    parent = key.rsplit("::{closure#", 1)[0]
+    pf = fx.fn_opt(parent); kf = fx.fn_opt(key)
+    if pf is None or kf is None: return (key, e)
+    caps = [c[0] for c in (kf.get("captures") or [])]
+    if nm not in caps: return (key, e)
+    i = caps.index(nm)
+    pb = _Body(pf); pd = D.Dag(pb)
+    for b in pb.reachable:
+        for st in pb.stmts(b):
+            if st[0] == "A" and st[2][0] == "Agg" and st[2][1][0] in ("Closure", "Coroutine", "CoroutineClosure") and st[2][1][1] == key and i < len(st[2][2]):
+                return resolve_capture(fx, parent, pd.expr(st[2][2][i]), depth + 1)
+    return (key, e)
